@@ -112,7 +112,7 @@ static void equivcache(const J &sc, Emitter &out)
     }
     ev.set("n", J(n)).set("edges", sc["edges"]).set("queries", sc["queries"]).set("answers", answers).set("placed", J(placed));
     if (kind == "collision") {
-        ev.set("limbs", sc["limbs"]);
+        ev.set("limbs", sc["limbs"]).set("fam", sc["fam"]);
     }
     out.emit(ev);
 }
